@@ -406,6 +406,17 @@ func checkTriangulateMesh(r *ev.Run, loops [][]pt, place string) {
 		sc, _ := pow2(place)
 		f = func(p pt) model2d.Coord { return model2d.XY(float64(p.x)*sc, float64(p.y)*sc) }
 		inv = func(c model2d.Coord) model2d.Coord { return c.Scale(1 / sc) }
+	case "magic", "magic-":
+		// turned by exactly the angle (or its opposite) by which TriangulateMesh turns its input to get rid of
+		// axis-parallel edges, with the same arithmetic as Mesh.Rotate: axis-parallel edges of the grid polygon are
+		// axis-parallel again - exactly - once the library has turned the mesh
+		ang := 0.5037616150469717
+		if place == "magic-" {
+			ang = -ang
+		}
+		rot, back := model2d.Rotation(ang), model2d.Rotation(-ang)
+		f = func(p pt) model2d.Coord { return rot.Apply(model2d.XY(float64(p.x), float64(p.y))) }
+		inv = func(c model2d.Coord) model2d.Coord { return back.Apply(c) }
 	case "generic":
 		cs, sn := math.Cos(0.3), math.Sin(0.3)
 		f = func(p pt) model2d.Coord {
@@ -751,7 +762,7 @@ func main() {
 		var total, nt int64
 		for n := 3; n <= maxN; n++ {
 			enumPolys(gw, gh, n, true, func(p []pt) {
-				for _, place := range []string{"", "rot90", "shift", "generic", "pow2:-10", "pow2:-24", "pow2:10", "far"} {
+				for _, place := range []string{"", "rot90", "shift", "generic", "pow2:-10", "pow2:-24", "pow2:10", "far", "magic", "magic-"} {
 					checkTriangulateMesh(r, [][]pt{p}, place)
 					atomic.AddInt64(&total, 1)
 				}
